@@ -852,6 +852,8 @@ func (x *vConnRun) routed(tok, to int) {
 			}
 		}
 	}
+	x.report("C03:reply-delivered-to-different-client", fmt.Sprintf("the reply for token %d issued on connection %d (announced client ids %v) was delivered to live connection %d (announced %v), which never sent that RequestId and shares no client id with the issuer",
+		tok, ti.owner, owner.announced, to, rc.announced))
 	x.report("C18:reply-to-unrelated-connection", fmt.Sprintf("the reply for token %d issued on connection %d (announced client ids %v, closed=%v) was delivered to connection %d (announced %v)",
 		tok, ti.owner, owner.announced, owner.srvClosed, to, rc.announced))
 }
